@@ -1,7 +1,8 @@
 #!/bin/bash
 # run inside a vp-run snapshot: builds the engine there and runs checks with evidence written into the snapshot
 export GOFLAGS=-mod=mod GOPROXY=off GOSUMDB=off GOTOOLCHAIN=local VERIF_DIR=$PWD
+[ -n "${VP_RUN_REPO:-}" ] && export VERIF_REPO=$VP_RUN_REPO
 (cd engine && go build -o ../bin/symgo ./cmd/symgo) || exit 3
 for id in "$@"; do
-  echo "=== $id"; /usr/bin/time -v ./bin/symgo check --tier ${TIER:-thorough} -j ${J:-8} $id 2>&1 | grep -v "^\s" | cut -c1-400 | tail -30
+  echo "=== $id"; /usr/bin/time -v ./bin/symgo check --timing --tier ${TIER:-thorough} -j ${J:-8} $id > out.$id.log 2>&1; grep TIMING out.$id.log | sort -k2 -n -r | head -12; grep -v "TIMING\|^\s" out.$id.log | cut -c1-400 | tail -30
 done
